@@ -31,8 +31,9 @@ def all_open_keys():
 
 
 def stream_cfg(open_keys, clash=False):
-    """main stream: nothing whose divergence is an OPEN finding (of any property); clash stream: aims at the evaluator's
-    scoping defects (locals named like globals, block-local shadowing, escapes in strings)."""
+    """main stream: nothing whose divergence is an OPEN finding (of any property) -- block-local shadowing is back in since
+    c03:block-exit is fixed (9481a65); clash stream: aims at the evaluator's remaining scoping defect (locals named like
+    globals: dynamic scoping) and at escapes in strings; its block-shadowing shapes are regression inputs for the fix."""
     cfg = progen.Cfg()
     cfg.multi_effect_args = 'lang:arg-order' not in open_keys          # native evaluates arguments right to left
     cfg.self_ref_shadow = False
